@@ -133,7 +133,7 @@ def run_shard(ctx, K=None):
             POOL.append((gd, q))
     # feedback: cases whose trace reached line 7 (rare under uniform sampling) are kept and mutated
     pool = [c for c in POOL]
-    budget = ctx.share({"quick": 6000, "thorough": 60000}[ctx.tier])
+    budget = ctx.share({"quick": 9000, "thorough": 100000}[ctx.tier])
     fb = {"line7_cases": 0, "line7_then_line6": 0, "line7_twice": 0}
     deep: list = []  # cases whose trace passes line 7 twice (7 -> 2 -> 7): rarer still, mutated preferentially
     for i in range(budget):
@@ -156,7 +156,11 @@ def run_shard(ctx, K=None):
             fb["line7_cases"] += 1
             if "id.line6" in tg[tg.index("id.line7"):]:
                 fb["line7_then_line6"] += 1
-            if list(tg).count("id.line7") >= 2:
+            # line 7 entered with a working distribution that is no longer the observational one: a second line 7 in
+            # ONE recursion chain (two line-7 events in different line-4 branches do not count)
+            nested = any(t == "id.line7" and "estimand" in f and not mon_id._is_observational(f["estimand"])
+                         for t, f in kernel.LOG.trace)
+            if nested:
                 fb["line7_twice"] += 1
                 if len(deep) < 200:
                     deep.append((gd, q))
